@@ -1127,6 +1127,9 @@ LOOP:
 						return l.errorf("unexpected %%}, expecting %s", end)
 					}
 				case '%':
+					if len(l.src) < 3 || l.src[2] != '}' {
+						break
+					}
 					switch end {
 					case tokenEndStatements:
 						if endLineAsSemicolon {
